@@ -356,46 +356,195 @@ func isDistinctIdents(exprs []ast.Expr) bool {
 	return true
 }
 
+// tupleStep is one step of the way from a structure or a container to the
+// place a tuple assignment stores to: a field, or an element if index is set.
+type tupleStep struct {
+	field int
+	index ast.Expr
+}
+
+// tupleTarget is a target of a tuple assignment which is a part of something
+// else: x.f, x[i], x.f[i].g and the like. The place is reached by steps either
+// from base, an expression evaluated before the values on the right (what
+// a pointer points to, a slice, a map), or from root, a variable that holds
+// a structure or an array by value: its fields and elements are parts of the
+// variable, nothing of it is evaluated in advance, it is loaded when the
+// target is stored (it may have been assigned by then, `t, t.x = f()`).
+type tupleTarget struct {
+	base     ast.Expr
+	basePath []int // embedded fields to load from base
+	root     ast.Expr
+	steps    []tupleStep
+	kept     int // number of stack items kept for the target
+}
+
+// tupleTargetOf analyses a target of a tuple assignment, it returns nil for
+// a target that is not a part of something else (a variable, *p).
+func (c *codegen) tupleTargetOf(lhs ast.Expr) *tupleTarget {
+	var (
+		t   = new(tupleTarget)
+		cur = lhs
+	)
+loop:
+	for {
+		switch e := cur.(type) {
+		case *ast.SelectorExpr:
+			typ := c.typeOf(e.X)
+			if c.isInvalidType(typ) {
+				// Other package global variable.
+				if len(t.steps) == 0 {
+					return nil
+				}
+				t.root = e
+				break loop
+			}
+			strct, ok := getStruct(typ)
+			if !ok {
+				c.prog.Err = fmt.Errorf("nested selector assigns not supported yet")
+				return nil
+			}
+			path := pathToField(strct, e.Sel.Name)
+			if path == nil {
+				c.prog.Err = fmt.Errorf("field %q not found in type %s", e.Sel.Name, typ)
+				return nil
+			}
+			_, byValue := typ.Underlying().(*types.Struct)
+			if byValue && storedStruct(e) == e.X && !embeddedPointer(strct, path) {
+				// A field of a structure held by value is a part of
+				// whatever the structure is a part of.
+				for _, f := range path {
+					t.steps = append(t.steps, tupleStep{field: f})
+				}
+				cur = ast.Unparen(e.X)
+				continue
+			}
+			// A pointer indirection, explicit or not.
+			t.steps = append(t.steps, tupleStep{field: path[0]})
+			t.base = storedStruct(e)
+			t.basePath = path[1:]
+			break loop
+		case *ast.IndexExpr:
+			t.steps = append(t.steps, tupleStep{index: e.Index})
+			x := ast.Unparen(e.X)
+			if typ := c.typeOf(x); typ != nil {
+				arr, ok := typ.Underlying().(*types.Array)
+				_, isStar := x.(*ast.StarExpr)
+				if ok && !isByte(arr.Elem()) && !isStar {
+					// An element of an array is a part of
+					// whatever the array is a part of.
+					cur = x
+					continue
+				}
+			}
+			t.base = e.X
+			break loop
+		default:
+			if len(t.steps) == 0 {
+				return nil
+			}
+			if _, ok := e.(*ast.Ident); ok {
+				t.root = e
+			} else {
+				t.base = e
+			}
+			break loop
+		}
+	}
+	slices.Reverse(t.steps)
+	if t.base != nil {
+		t.kept = 1
+	}
+	for _, st := range t.steps {
+		if st.index != nil {
+			t.kept++
+		}
+	}
+	return t
+}
+
+// embeddedPointer tells whether the field with the given path (see pathToField)
+// is promoted through an embedded pointer.
+func embeddedPointer(strct *types.Struct, path []int) bool {
+	for i := range slices.Backward(path[1:]) {
+		typ := strct.Field(path[i+1]).Type()
+		if _, ok := typ.Underlying().(*types.Pointer); ok {
+			return true
+		}
+		strct, _ = getStruct(typ)
+	}
+	return false
+}
+
+// emitStoreTupleTarget stores into the target t. The value is on the stack
+// followed by the items kept for the target: the base if there is one, then the
+// indices.
+func (c *codegen) emitStoreTupleTarget(t *tupleTarget) {
+	if t.root == nil && len(t.steps) == 1 {
+		if t.steps[0].index != nil { // value container index
+			emit.Opcodes(c.prog.BinWriter, opcode.ROT, opcode.SETITEM)
+		} else { // value structure
+			c.emitStoreStructField(t.steps[0].field)
+		}
+		return
+	}
+	indices := t.kept
+	if t.root != nil {
+		ast.Walk(c, t.root)
+	} else {
+		indices--
+		c.emitRoll(indices)
+	}
+	// value index... index structure
+	for i, st := range t.steps {
+		last := i == len(t.steps)-1
+		switch {
+		case st.index == nil && last:
+			c.emitStoreStructField(st.field)
+		case st.index == nil:
+			emit.Int(c.prog.BinWriter, int64(st.field))
+			emit.Opcodes(c.prog.BinWriter, opcode.PICKITEM)
+		case last:
+			emit.Opcodes(c.prog.BinWriter, opcode.SWAP, opcode.ROT, opcode.SETITEM)
+		default:
+			c.emitRoll(indices)
+			emit.Opcodes(c.prog.BinWriter, opcode.PICKITEM)
+			indices--
+		}
+	}
+}
+
 // emitTupleAssign emits code for a tuple assignment with targets other than
 // distinct variables, like `s[i], i = x, y` or `a.f, s[0], s[0] = x, y, z`.
-// The operands of index expressions and the structures of field selectors on
-// the left are evaluated first, then the values on the right (as many
+// The operands of index expressions and pointer indirections on the left are
+// evaluated first (see tupleTarget), then the values on the right (as many
 // expressions as there are targets, or one call with that many results, or
 // a map lookup with the ok flag if isMapKeyCheck is set), after that the values
 // are stored from left to right.
 func (c *codegen) emitTupleAssign(n *ast.AssignStmt, isMapKeyCheck bool) {
 	var (
-		kept  = make([]int, len(n.Lhs)) // number of stack items kept for the target
-		field = make([]int, len(n.Lhs)) // index of the field for struct field targets
-		below int                       // number of kept items of the targets not stored yet
+		targets = make([]*tupleTarget, len(n.Lhs))
+		kept    = make([]int, len(n.Lhs)) // number of stack items kept for the target
+		below   int                       // number of kept items of the targets not stored yet
 	)
 	for i, lhs := range n.Lhs {
-		switch t := lhs.(type) {
-		case *ast.IndexExpr:
-			ast.Walk(c, t.X)
-			ast.Walk(c, t.Index)
-			kept[i] = 2
-		case *ast.SelectorExpr:
-			typ := c.typeOf(t.X)
-			if c.isInvalidType(typ) {
-				// Other package global variable.
-				break
-			}
-			strct, ok := getStruct(typ)
-			if !ok {
-				c.prog.Err = fmt.Errorf("nested selector assigns not supported yet")
-				return
-			}
-			path := pathToField(strct, t.Sel.Name)
-			if path == nil {
-				c.prog.Err = fmt.Errorf("field %q not found in type %s", t.Sel.Name, typ)
-				return
-			}
-			ast.Walk(c, storedStruct(t))
-			c.emitLoadField(path[1:])
-			field[i] = path[0]
-			kept[i] = 1
+		t := c.tupleTargetOf(lhs)
+		if c.prog.Err != nil {
+			return
 		}
+		if t == nil {
+			continue
+		}
+		if t.base != nil {
+			ast.Walk(c, t.base)
+			c.emitLoadField(t.basePath)
+		}
+		for _, st := range t.steps {
+			if st.index != nil {
+				ast.Walk(c, st.index)
+			}
+		}
+		targets[i] = t
+		kept[i] = t.kept
 		below += kept[i]
 	}
 	if isMapKeyCheck {
@@ -429,17 +578,14 @@ func (c *codegen) emitTupleAssign(n *ast.AssignStmt, isMapKeyCheck bool) {
 			emit.Opcodes(c.prog.BinWriter, opcode.ROLL)
 		}
 		below -= kept[i]
-		switch kept[i] {
-		case 2: // value container index
-			emit.Opcodes(c.prog.BinWriter, opcode.ROT, opcode.SETITEM)
-		case 1: // value structure
-			c.emitStoreStructField(field[i])
-		default:
-			if t, ok := lhs.(*ast.Ident); ok && n.Tok == token.DEFINE && len(n.Rhs) == len(n.Lhs) {
-				c.registerDebugVariable(t.Name, n.Rhs[i])
-			}
-			c.emitStoreExpr(lhs, n.Tok)
+		if targets[i] != nil {
+			c.emitStoreTupleTarget(targets[i])
+			continue
 		}
+		if t, ok := lhs.(*ast.Ident); ok && n.Tok == token.DEFINE && len(n.Rhs) == len(n.Lhs) {
+			c.registerDebugVariable(t.Name, n.Rhs[i])
+		}
+		c.emitStoreExpr(lhs, n.Tok)
 	}
 }
 
